@@ -96,11 +96,23 @@ class T:
             return z3.RealSort()
         if k == "seq":
             return z3.SeqSort(self.args[0].z3sort())
+        if k == "tuple":
+            return tuple_sort(tuple(a.z3sort() for a in self.args))[0]
         raise TypeError(f"no z3 sort for {self}")
 
     def is_smt(self):
         return self.kind in ("int", "bool", "str", "ref", "dyn", "float", "char") or (
-            self.kind == "seq" and self.args[0].is_smt())
+            self.kind == "seq" and self.args[0].is_smt()) or (self.kind == "tuple" and all(a.is_smt() for a in self.args))
+
+
+_tuples = {}
+
+
+def tuple_sort(sorts):
+    key = tuple(str(x) for x in sorts)
+    if key not in _tuples:
+        _tuples[key] = z3.TupleSort("Tup_" + "_".join(k.replace(" ", "").replace("(", "").replace(")", "") for k in key), list(sorts))
+    return _tuples[key]
 
 
 def parse_T(s: str) -> T:
